@@ -115,6 +115,17 @@ func HandBlob(d func(int) int, seed uint64) ([]byte, []string, map[string][]byte
 			// the first listing carries the non-zero attributes, the repetition resets them
 			ents[0].UID, ents[0].GID = 7, 8
 			ents[0].Xattrs = map[string][]byte{"user.first": []byte("1")}
+			// several attributes on the first listing, fewer (or one, or an empty one) on the repetition
+			switch d(4) {
+			case 1:
+				ents[0].Xattrs = map[string][]byte{"user.first": []byte("1"), "user.second": []byte("2"), "user.third": []byte("3")}
+			case 2:
+				ents[0].Xattrs = map[string][]byte{"user.first": []byte("1"), "user.second": []byte("2"), "user.third": []byte("3")}
+				e.Xattrs = map[string][]byte{"user.last": []byte("9")}
+			case 3:
+				ents[0].Xattrs = map[string][]byte{"user.first": []byte("1"), "user.second": []byte("2")}
+				e.Xattrs = map[string][]byte{"user.empty": {}, "user.second": []byte("x")}
+			}
 		}
 		ents = append(ents, e)
 		notes = append(notes, "repeated-dir")
